@@ -721,3 +721,10 @@ Proof.
   intros H Hij Hj. apply sorted_nth; [exact (errors_ascending_strong s es H)|exact Hij|].
   rewrite map_length. exact Hj.
 Qed.
+
+(* texts for the non-vacuity examples *)
+(* "\n2020-01-01 (8h\n x\n    8:00-7:00\n    1h foo\n        \n\n\n2020-01-02 x\n    8:00-? \n    9:00 - ??":
+   five errors in two blocks, one of them one past the end of its line *)
+Definition example_faulty : bytes :=
+  ([10] ++ b!"2020-01-01 (8h" ++ [10] ++ b!" x" ++ [10] ++ b!"    8:00-7:00" ++ [10] ++ b!"    1h foo" ++ [10]
+   ++ b!"        " ++ [10;10;10] ++ b!"2020-01-02 x" ++ [10] ++ b!"    8:00-? " ++ [10] ++ b!"    9:00 - ??")%N.
